@@ -86,6 +86,7 @@ class Tracer:
         self.zone_new = []
         self.top_calls = []
         self.cursor_ref = None
+        self.lineage = None  # length symbols of the input and of every rest split off it
         self.notes = []
         self.v1_rest = None  # length symbol of the cursor after the last cursor-level read
 
@@ -120,6 +121,19 @@ class Tracer:
     def __call__(self, e, **kw):
         I = kw["interp"]
         stack = list(I.stack)
+        if e == "root":
+            # mark the input: every rest split off it inherits the mark (sub-slices keep provenance)
+            S0 = kw["state"]
+            a0 = kw["args"][0] if kw["args"] else None
+            if isinstance(a0, Ref) and a0.cell is not None:
+                cell, path = a0.cell, a0.path
+                v0 = I.read(S0, cell, path, ("c08root",))
+                if isinstance(v0, Ref) and v0.cell is not None:  # header parser as root: &mut &[u8]
+                    cell, path = v0.cell, v0.path
+                    v0 = I.read(S0, cell, path, ("c08root2",))
+                if isinstance(v0, Seq):
+                    I.write(S0, cell, path, Seq(v0.kind, v0.len, v0.elem, v0.efacts, v0.data, v0.prov | frozenset([("cursor",)])), ("c08mark",))
+            return None
         if e == "enter":
             inst = kw["inst"]
             site = kw["site"]
@@ -176,11 +190,13 @@ class Tracer:
             src = kw["source"]
             if isinstance(src, Seq) and any(t[0] == "read" for t in src.prov):
                 return None  # a split of an already tagged chunk: keep the block's tag
+            if not isinstance(src, Seq) or ("cursor",) not in src.prov:
+                return None  # not the file cursor (or a rest of it)
             tag = ("read", ctx.site)
             if tag not in self.reads:
-                n = kw["count"]
+                cl = kw["count_lin"]
                 rb = self.root_block(ctx.site)
-                self.reads[tag] = {"k": len(self.order), "rb": rb, "stack": [s.rsplit("::", 2)[-1] if False else s for s in stack], "count": ("const", kw["const_count"]) if n is None else ("lin", lin_repr(S.term(n))), "in_header": self.root_is_header or self.hdr_name in stack, "hdr": 1 if self.root_is_header else (self.hdr_ordinal(rb) if self.hdr_name in stack else None)}
+                self.reads[tag] = {"k": len(self.order), "rb": rb, "stack": [s.rsplit("::", 2)[-1] if False else s for s in stack], "count": ("const", kw["const_count"]) if kw["const_count"] is not None else ("lin", lin_repr(cl)), "in_header": self.root_is_header or self.hdr_name in stack, "hdr": 1 if self.root_is_header else (self.hdr_ordinal(rb) if self.hdr_name in stack else None)}
                 self.order.append(tag)
             return tag
         if e == "elem_read":
